@@ -211,7 +211,8 @@ static Block *arena_alloc(size_t size, size_t align, int kind, OpCtx *ctx, bool 
 	b.hprot.assign(npages, -1);
 	uint64_t nseed = rt::mix64(g_heap_seed, ++g_alloc_counter);
 	if (is_mmap || zeroed) {
-		if (reused) memset((void *)lo, 0, npages * PG); // the kernel hands out zero pages
+		// the kernel hands out zero pages: a reused mapping was dropped with MADV_DONTNEED when it was unmapped
+		// (arena_free), so it reads as zero again without touching it here
 	} else {
 		bool stale = reused && (ctx->heap_policy & HP_STALE);
 		if (stale) ++g_stats.stale;
